@@ -58,6 +58,10 @@ Fixpoint wadd (l : list (N * N * Z)) (d g : N) (k : Z) : list (N * N * Z) :=
 Definition set_client (s : lstate) (c : N) (x : lclient) : lstate :=
   mkLS (aset (l_clients s) c x) (l_gens s) (l_removed s) (l_writes s).
 
+(* what a request carrying n changes stores for the document (d, g): nothing once it is removed
+   (pushPack discards what is pushed to a removed document; the response carries the removed flag) *)
+Definition stored (s : lstate) (d g : N) (n : Z) : Z := if is_removed s d g then 0 else n.
+
 (* one call: the verdict (true = accepted) and the new state *)
 Definition lstep (s : lstate) (call : lcall) : bool * lstate :=
   match call with
@@ -117,7 +121,7 @@ Definition lstep (s : lstate) (call : lcall) : bool * lstate :=
           match find_doc (lc_docs x) d with
           | Some dd =>
               if lc_active x && dstatus_eqb (ld_status dd) DAttached
-              then (true, mkLS (l_clients s) (l_gens s) (l_removed s) (wadd (l_writes s) d (ld_gen dd) n))
+              then (true, mkLS (l_clients s) (l_gens s) (l_removed s) (wadd (l_writes s) d (ld_gen dd) (stored s d (ld_gen dd) n)))
               else (false, s)
           | None => (false, s)
           end
@@ -130,7 +134,7 @@ Definition lstep (s : lstate) (call : lcall) : bool * lstate :=
           | Some dd =>
               if lc_active x && attached_like (ld_status dd)
               then (true, mkLS (aset (l_clients s) c (mkLC true (set_doc (lc_docs x) (mkLD d (ld_gen dd) DDetached))))
-                               (l_gens s) (l_removed s) (wadd (l_writes s) d (ld_gen dd) n))
+                               (l_gens s) (l_removed s) (wadd (l_writes s) d (ld_gen dd) (stored s d (ld_gen dd) n)))
               else (false, s)
           | None => (false, s)
           end
@@ -143,7 +147,7 @@ Definition lstep (s : lstate) (call : lcall) : bool * lstate :=
           | Some dd =>
               if lc_active x && attached_like (ld_status dd)
               then (true, mkLS (aset (l_clients s) c (mkLC true (set_doc (lc_docs x) (mkLD d (ld_gen dd) DRemoved))))
-                               (l_gens s) ((d, ld_gen dd) :: l_removed s) (wadd (l_writes s) d (ld_gen dd) n))
+                               (l_gens s) ((d, ld_gen dd) :: l_removed s) (wadd (l_writes s) d (ld_gen dd) (stored s d (ld_gen dd) n)))
               else (false, s)
           | None => (false, s)
           end
